@@ -2,7 +2,7 @@
    Statements only (copied from the lemma libraries); every proof is a bare
    `exact`; see the cited files in coq/proofs for the proofs. *)
 From Coq Require Import List NArith ZArith Bool Arith Sorting.Sorted Sorting.Permutation.
-From D2P Require Import Str Err Xml TableTypes Tables Merge Package Content Save BulletsFacts MergeFacts SaveFacts TablesFacts Walk Collector.
+From D2P Require Import Str Err Xml TableTypes Tables Merge Package Content Save BulletsFacts MergeFacts SaveFacts TablesFacts Walk Collector ReplaceFacts.
 Import ListNotations.
 Import String.StringSyntax.
 Delimit Scope string_scope with string.
@@ -71,3 +71,27 @@ Theorem C16_content_types :
   = sort_strs (map s2l ["officeDocument"; "header"; "footer"; "footnotes"; "endnotes"]%string).
 Proof. exact content_types_spec. Qed.
 Print Assumptions C16_content_types.
+
+(* RE-EXTRACTION: a content part as written by save() is a fixed point of merging, and extracting it again (same options) gives the very collector of the original part - identical output (hypotheses of merge idempotence; parse o serialise = id is lxml's, observed by the harness) *)
+Theorem C16_reextract_partial :
+  forall pt a o out fs f r rels,
+  save a o = Ok out -> files a = Ok fs -> In f fs ->
+  mem_str (f_type f) content_file_types = true ->
+  member_xml a (f_path f) = Ok r -> file_rels_or_empty a fs f = Ok rels ->
+  rels_ok (merge_env o rels) -> wf_ptag pt (view r) = true -> wf_pr (view r) = true ->
+  exists t, In (f_path f, WXml t) out /\ part_root a fs o f = Ok t
+    /\ merge_elems (merge_env o rels) t = Ok t
+    /\ (forall v, (t' <- merge_elems (merge_env o rels) t ;; collect_from v [] t')
+                  = collect_from v [] t)
+    /\ reextract a fs o f t = part_collector a fs o f.
+Proof. exact C16_reextract_partial. Qed.
+Print Assumptions C16_reextract_partial.
+
+(* what save() writes for a content part is its cached root element *)
+Theorem C16_written_is_part_root :
+  forall a o out n t,
+  save a o = Ok out -> In (n, WXml t) out ->
+  exists fs f, files a = Ok fs /\ In f fs /\ mem_str (f_type f) save_overwrite_types = true
+    /\ n = f_path f /\ part_root a fs o f = Ok t.
+Proof. exact save_written_is_part_root. Qed.
+Print Assumptions C16_written_is_part_root.
